@@ -2501,7 +2501,7 @@ def xlat(info):
     e= []
     if info.admode == x86_afs.u16:
         # address-size prefix: the table is at bx + ZeroExtend(al), a 16-bit address
-        a = ExprCompose([(ExprInt8(0), 8, 16),
+        a = ExprCompose([(ExprInt(uint8(0)), 8, 16),
                          (eax[0:8], 0, 8)])
         b = ExprMem(ExprOp('+', ebx[0:16], a), 8)
         e.append(ExprAff(eax[0:8], b))
